@@ -9,6 +9,8 @@ package props
 //	c  two or three fresh roots to which THE SAME user-type objects were added, first used
 //	   concurrently, while further goroutines create more such roots at run time
 //	d  enum rules / regex types shared likewise, used directly and through their roots
+//	e  every type added to every type (the way an API definition holds its TYPEs): the type
+//	   objects are used as schemas themselves while other goroutines use the roots holding them
 //
 // Builds: "race" (export shims only) gives the race verdict — between the barrier and the join
 // the goroutines share nothing but the library objects under test; "rw" (copies of the library
@@ -131,6 +133,22 @@ func c12Plans(sc *c12Scenario) [][]c12Step {
 				for _, op := range c12SchemaOpsFor(p, r, c11Ref{Kind: "schema", Idx: g % nRoots}, sc.OpsPer) {
 					steps = append(steps, c12Step{op: op})
 				}
+			}
+		case "e":
+			// the family's type objects are complete schemas (every type added to every type) and
+			// are used as roots themselves while other goroutines use the roots that hold them
+			var types []c11Ref
+			for _, ref := range c11Refs(p) {
+				if ref.Kind == "type" && ref.Fam == 0 {
+					types = append(types, ref)
+				}
+			}
+			ref := c11Ref{Kind: "schema", Idx: (g / 2) % nRoots}
+			if g%2 == 1 && len(types) > 0 {
+				ref = types[(g/2)%len(types)]
+			}
+			for _, op := range c12SchemaOpsFor(p, r, ref, sc.OpsPer) {
+				steps = append(steps, c12Step{op: op})
 			}
 		case "d":
 			for i := 0; i < sc.OpsPer; i++ {
@@ -356,6 +374,18 @@ func c12GenPool(r *mon.Rng, kind string) c11Pool {
 		}
 	case "d":
 		p.Families = append(p.Families, curated(1))
+	case "e":
+		var f c11Family
+		switch r.Intn(4) {
+		case 0:
+			f = curated(2) // or rule-sets: unnamed types are hoisted at first use
+		case 1:
+			f = curated(0)
+		default:
+			f = c12GraphFamily(r, false, &p.Docs)
+		}
+		f.FullReg = true
+		p.Families = append(p.Families, f)
 	default:
 		if r.Chance(1, 3) {
 			p.Families = append(p.Families, curated(r.Intn(len(c11CuratedFamilies))))
@@ -428,7 +458,7 @@ func c12Sizes(tier string) (raceUnits, rwUnits, reps, onceUnits int) {
 	return 32, 32, 5, 4
 }
 
-var c12Kinds = []string{"a", "b", "c", "d", "c", "a", "c", "b"}
+var c12Kinds = []string{"a", "b", "c", "d", "c", "e", "c", "b"}
 
 func c12Run(c *mon.Ctx, unit int) {
 	ru, wu, reps, ou := c12Sizes(c.Tier)
